@@ -222,3 +222,41 @@ Proof.
     pose proof (layer_never_exceeds_deadline e (d1 + t + d2)) as L;
     destruct (layer_outcome (Some e) (d1 + t + d2)); try exact I; lia.
 Qed.
+
+(** waiting for a stream *)
+Lemma rpc_outcome_w_zero out_dflt in_dflt hdr h d1 d2 :
+  (forall e, effective out_dflt hdr = Some e -> 0 < e) ->
+  rpc_outcome_w out_dflt in_dflt hdr 0 h d1 d2 = rpc_outcome out_dflt in_dflt hdr h d1 d2.
+Proof.
+  intros Hpos. unfold rpc_outcome_w, rpc_outcome.
+  assert (L0 : exists t, layer_outcome (effective out_dflt hdr) 0 = Normal t).
+  { destruct (effective out_dflt hdr) as [e|] eqn:E; [|eexists; reflexivity].
+    specialize (Hpos e eq_refl). pose proof (layer_never_exceeds_deadline e 0) as L.
+    destruct (layer_outcome (Some e) 0); [eexists; reflexivity|lia|lia]. }
+  destruct L0 as [t0 ->]. rewrite !N.add_0_l. reflexivity.
+Qed.
+
+Lemma rpc_w_never_exceeds_deadline out_dflt in_dflt hdr w h d1 d2 e :
+  effective out_dflt hdr = Some e ->
+  match rpc_outcome_w out_dflt in_dflt hdr w h d1 d2 with
+  | Response t | RequestTimeoutStatus t => t < e
+  | CallerTimeoutError t => t = e
+  | RaceUnspecified => True
+  end.
+Proof.
+  intros Ee. unfold rpc_outcome_w. rewrite Ee.
+  pose proof (layer_never_exceeds_deadline e w) as L0.
+  destruct (layer_outcome (Some e) w) as [t0|t0|]; [|lia|exact I].
+  destruct (layer_outcome (effective in_dflt hdr) h) as [t|t|]; [| |exact I];
+    pose proof (layer_never_exceeds_deadline e (w + d1 + t + d2)) as L;
+    destruct (layer_outcome (Some e) (w + d1 + t + d2)); try exact I; lia.
+Qed.
+
+Lemma rpc_w_times_out_while_waiting out_dflt in_dflt hdr w h d1 d2 e :
+  effective out_dflt hdr = Some e -> e < w ->
+  rpc_outcome_w out_dflt in_dflt hdr w h d1 d2 = CallerTimeoutError e.
+Proof.
+  intros Ee Hw. unfold rpc_outcome_w. rewrite Ee.
+  pose proof (layer_never_exceeds_deadline e w) as L0.
+  destruct (layer_outcome (Some e) w) as [t0|t0|]; [lia| |lia]. destruct L0 as [-> _]. reflexivity.
+Qed.
